@@ -1,5 +1,6 @@
 """C12 — Tpfa.discretize: symmetric, single-valued, constant-preserving; M-matrix and
 linear exactness on K-orthogonal grids; MPFA coincidence (oracle only)."""
+import math
 from fractions import Fraction
 
 import numpy as np
@@ -43,6 +44,20 @@ def make_grid(spec):
     if spec.get("axperm"):
         # exact axis permutation of the node coordinates: the grid is embedded along other axes
         g.nodes = g.nodes[np.array(spec["axperm"])]
+    aff = spec.get("affine")
+    if aff:
+        # translation and power-of-two scaling are exact; the rotation is a float operation
+        # (the model receives whatever geometry porepy computes from the moved nodes)
+        nodes = (g.nodes + np.array(aff.get("shift", [0, 0, 0]), dtype=float)[:, None]) \
+            * math.ldexp(1.0, aff.get("scale", 0))
+        if aff.get("rot"):
+            ax, ang = aff["rot"]
+            c, s_ = math.cos(ang), math.sin(ang)
+            i, j = [(1, 2), (2, 0), (0, 1)][ax]
+            R = np.eye(3)
+            R[i, i], R[i, j], R[j, i], R[j, j] = c, -s_, s_, c
+            nodes = R @ nodes
+        g.nodes = nodes
     g.compute_geometry()
     if spec.get("pmap"):
         g.set_periodic_map(np.array(spec["pmap"], dtype=int))
@@ -130,7 +145,7 @@ class C12(Prop):
     props_file = "Props/C12.v"
     preamble = ("From Coq Require Import List ZArith Bool QArith.\nImport ListNotations.\n"
                 "From PP Require Import Model.C12.\nLocal Open Scope Q_scope.\n")
-    n_cases = (40, 600)
+    n_cases = (30, 450)
     design_ref = "DESIGN.md §5 C12"
     level_text = (
         "Coq theorems over an executable transcription of Tpfa.discretize (half "
@@ -146,29 +161,41 @@ class C12(Prop):
         "(C12_Mmatrix); the faces of a periodic pair get one transmissibility and one flux value "
         "(C12_periodic_pair); with one constant K the face flux of a linear pressure is "
         "-(K n).a on interior, Dirichlet and Neumann faces (C12_linear_exact_*), boundary "
-        "pressure reconstruction included (C12_bound_pressure). The same polymorphic model is "
+        "pressure reconstruction included (C12_bound_pressure); for a constant vector source the "
+        "vector_source flux cancels the flux of the hydrostatic pressure on every face of any grid "
+        "(C12_hydrostatic_*); on periodic grids the stored cell_faces^T * flux is symmetric when "
+        "every face is plain or in exactly one periodic pair (C12_periodic_symmetric). The "
+        "rational execution and the real instance compute the same matrices (C12_transfer, "
+        "division by zero included) and the rational K-orthogonality checker implies the real "
+        "hypothesis (C12_korth_checker). The same polymorphic model is "
         "executed over exact rationals on the real geometry arrays (Fraction(float)) of "
-        "generated grids and Coq compares all four matrices entrywise (relative 1e-9) and "
-        "evaluates the K-orthogonality checker on every instance.")
+        "generated grids and Coq compares flux, bound_flux, bound_pressure_cell/face, vector_source "
+        "and bound_pressure_vector_source entrywise (purely relative 1e-9, zeros exact), the "
+        "flux/bound_flux matrices of pp.Mpfa with the same verified model on K-orthogonal "
+        "non-periodic instances (1e-9 of the largest entry), exact symmetry of cell_faces^T*flux, "
+        "and evaluates the K-orthogonality checker on every instance.")
     level_note = (
         "Trusted: Coq kernel + vm_compute; harness (generator, exact float->Q literals); the "
-        "field-polymorphic model is executed at Q and the theorems are proved at R (instance "
-        "independence of the definition is trusted for the four matrices; for the "
-        "K-orthogonality checker the Q->R transfer is proved, C12_korth_checker); the exact "
+        "field-polymorphic model is executed at Q and the theorems are proved at R; the Q->R "
+        "transfer is proved for the four matrices (C12_transfer) and the K-orthogonality checker "
+        "(C12_korth_checker), not for the two vector-source matrices; the exact "
         "K-orthogonality hypothesis is validated only on instances whose float geometry "
         "arrays satisfy it exactly (counted in the evidence), the oracle covers all "
         "Cartesian/tensor instances numerically; float rounding is not covered "
-        "(comparison tolerance 1e-9 relative inside Coq). ORACLE-ONLY: the claim that the TPFA "
-        "flux and bound_flux matrices coincide with MPFA on Cartesian/tensor grids with diagonal "
-        "permeability is checked numerically (pp.Mpfa vs pp.Tpfa) and is not a theorem. Linear "
+        "(comparison tolerance 1e-9 relative inside Coq). The MPFA coincidence claim is NOT a "
+        "theorem about MPFA: on every K-orthogonal non-periodic instance the real pp.Mpfa matrices "
+        "are compared inside Coq with the verified TPFA model (execution correspondence, the "
+        "model acting as an executable model of MPFA on that subset) and by the oracle with the "
+        "TPFA matrices. Linear "
         "exactness is stated as -(K n).a, equal to -n.K a for symmetric K. Periodic face maps are "
         "modelled by the code's entry extension (a pair = one face with two cells, per-entry "
         "geometry): C12_symmetric then speaks about Div over the same (identified) entry list; "
         "for the stored cell_faces^T of a periodic grid symmetry is NOT a general theorem — it "
         "follows pairwise from C12_periodic_pair and is checked exactly in Q by the tie on "
         "every periodic instance, and by the oracle on the implementation; MPFA comparison and "
-        "linear pressures are not applied to periodic cases. Not modelled: "
-        "Aavatsmark transmissibilities, vector_source matrices; boundary "
+        "linear pressures are not applied to periodic cases (a linear pressure is not periodic). "
+        "The structure hypothesis of C12_periodic_symmetric is not validated per instance (the "
+        "exact symmetry check is). Not modelled: Aavatsmark transmissibilities; boundary "
         "faces are assumed to have exactly one incidence entry (bndr_sgn ordering).")
     technique = ("Coq proof (double-sum exchange for symmetry, per-face algebra by field/nra over R) "
                  "+ vm_compute execution correspondence over exact rationals + K-orthogonality "
@@ -178,7 +205,10 @@ class C12(Prop):
             "grids carry a periodic face map on opposite sides (one or more axes, orientation of an "
             "axis optionally flipped, pairs optionally shuffled), half of the 1-D/2-D ones are "
             "embedded along other axes by an exact axis permutation with K anisotropic only in the "
-            "embedding axes; K per cell: isotropic, diagonal "
+            "embedding axes; 45% of the grids are moved by an exact translation (up to 1024) and/or an "
+            "exact power-of-two scaling 2^-20..2^20 of the nodes, small ones also by a float rotation "
+            "(1e-7 .. 2 rad about a coordinate axis; K-orthogonal then only for isotropic K); K is "
+            "scaled by 2^-40..2^30; ambient_dimension absent or dim..3; K per cell: isotropic, diagonal "
             "anisotropic, full SPD tensor (dyadic entries), or one constant tensor; bc: random "
             "Dirichlet/Neumann per boundary face (always at least the default Neumann); "
             "non-trivial = at least 2 cells")
@@ -199,6 +229,21 @@ class C12(Prop):
                     spec["pmap"] = periodic_pairs(rng, spec)
                 if d0 < 3 and rng.random() < 0.5:
                     spec["axperm"] = rng.choice([[1, 0, 2], [2, 0, 1], [1, 2, 0], [2, 1, 0], [0, 2, 1]])
+            ra = rng.random()
+            if ra < 0.45:
+                aff = {}
+                if rng.random() < 0.7:
+                    aff["scale"] = rng.randint(-20, 20)
+                if rng.random() < 0.5:
+                    aff["shift"] = [rng.choice([0, 0.5, -3, 17, 256, -1024]) for _ in range(3)]
+                ncells = 1
+                for n_ in (spec.get("n") or [len(x) - 1 for x in spec.get("x", [])]):
+                    ncells *= n_
+                if rng.random() < 0.25 and spec["kind"] != "tet" and ncells <= 9:
+                    aff["rot"] = [rng.choice([0, 1, 2]), rng.choice([1e-7, 3e-5, 0.3, 2.0])]
+                if len(spec.get("n", spec.get("x", []))) == 1 and aff.get("rot"):
+                    aff["rot"] = [2, aff["rot"][1]]
+                spec["affine"] = aff
             g = make_grid(spec)
             nc, nf = g.num_cells, g.num_faces
             r = rng.random()
@@ -207,6 +252,7 @@ class C12(Prop):
             kmode = rng.choice(["iso", "diag", "diag", "full"]) if g.dim > 1 else rng.choice(["iso", "diag"])
             if spec.get("axperm") and rng.random() < 0.7:
                 kmode = "diag"     # anisotropy that only shows in the embedding axes
+            kexp = rng.choice([0, 0, 0, -40, -13, 7, 30])   # exact power-of-two scale of K
             k = {"kxx": pick()}
             if kmode in ("diag", "full"):
                 # often equal in the first axes and different in the third: isotropic for
@@ -224,7 +270,9 @@ class C12(Prop):
             bfaces = [int(f) for f in g.get_all_boundary_faces()]
             rb = rng.random()
             dirf = [f for f in bfaces if (rb < 0.15) or (rb < 0.9 and rng.random() < 0.5)]
+            k = {key: [v * 2.0 ** kexp for v in vals_] for key, vals_ in k.items()}
             case = {"grid": spec, "k": k, "kmode": kmode, "const": const, "dir": dirf,
+                    "ambient": rng.choice([None, None] + list(range(g.dim, 4))),
                     "lin": [rng.randint(-3, 3) for _ in range(4)], "p0": rng.randint(-5, 5)}
             yield case
 
@@ -233,7 +281,10 @@ class C12(Prop):
         g = make_grid(case["grid"])
         K = make_tensor(g, case["k"])
         bc = pp.BoundaryCondition(g, np.array(case["dir"], dtype=int), ["dir"] * len(case["dir"]))
-        data = pp.initialize_data(g, {}, KW, {"second_order_tensor": K, "bc": bc})
+        par = {"second_order_tensor": K, "bc": bc}
+        if case.get("ambient"):
+            par["ambient_dimension"] = int(case["ambient"])
+        data = pp.initialize_data(g, {}, KW, par)
         return g, K, bc, data
 
     def run_impl(self, case):
@@ -253,7 +304,21 @@ class C12(Prop):
                "bpc": canon(md[discr.bound_pressure_cell_matrix_key]),
                "bpf": canon(md[discr.bound_pressure_face_matrix_key]),
                "bnd": [int(f) for f in g.get_all_boundary_faces()],
-               "korth": bool(case["grid"]["kind"] in ("cart", "tensor") and case["kmode"] != "full")}
+               "korth": bool(case["grid"]["kind"] in ("cart", "tensor") and case["kmode"] != "full"
+                             and (case["kmode"] == "iso"
+                                  or not (case["grid"].get("affine") or {}).get("rot")))}
+        res["vsd"] = int(case.get("ambient") or g.dim)
+        res["vs"] = canon(md[discr.vector_source_matrix_key])
+        res["bpvs"] = canon(md[discr.bound_pressure_vector_source_matrix_key])
+        res["mpfa"] = None
+        if res["korth"] and not res["pmap"]:
+            # MPFA on the same data: compared with the verified TPFA model inside Coq (tie) and
+            # with the TPFA matrices by the oracle
+            g2, K2, bc2, data2 = self._setup(case)
+            mp = pp.Mpfa(KW)
+            mp.discretize(g2, data2)
+            md2 = data2[pp.DISCRETIZATION_MATRICES][KW]
+            res["mpfa"] = [canon(md2[mp.flux_matrix_key]), canon(md2[mp.bound_flux_matrix_key])]
         res["korth_exact"] = self._korth_exact(g, K, res["cf"])
         self._stats["korth_rule"] += int(res["korth"])
         self._stats["korth_rule_and_exact"] += int(res["korth"] and res["korth_exact"])
@@ -293,7 +358,7 @@ class C12(Prop):
         bflux = to_dense(res["bound_flux"], (nf, nf))
         div = g.cell_faces.T.toarray()
         A = div @ flux
-        scale = max(1.0, np.abs(flux).max() if flux.size else 1.0)
+        scale = (np.abs(flux).max() if flux.size else 0.0) or 1.0
         tol = 1e-10 * scale
         if np.abs(A - A.T).max() > tol:
             return f"Div*flux is not symmetric (max asymmetry {np.abs(A - A.T).max():.3e})"
@@ -323,6 +388,21 @@ class C12(Prop):
         q = flux @ (p0 * np.ones(nc)) + bflux @ bv
         if np.abs(q).max() > tol * max(1.0, abs(p0)):
             return f"constant pressure {p0} with matching Dirichlet data gives flux {np.abs(q).max():.3e}"
+        # hydrostatic consistency of the vector-source matrix (any grid, non-periodic):
+        # p = g.x + b over the first vsd components, Dirichlet data p(x_f), zero Neumann data
+        if not res["pmap"]:
+            vsd = res["vsd"]
+            gvec = np.array(case["lin"][:3], dtype=float)
+            gvec[vsd:] = 0
+            vs = to_dense(res["vs"], (nf, nc * vsd))
+            ph = gvec @ g.cell_centers + float(case["lin"][3])
+            bvh = np.zeros(nf)
+            bvh[bc.is_dir] = (gvec @ g.face_centers + float(case["lin"][3]))[bc.is_dir]
+            qh = flux @ ph + bflux @ bvh + vs @ np.tile(gvec[:vsd], nc)
+            mag = scale * (np.abs(ph).max() + np.abs(bvh).max() + 1e-300)
+            if np.abs(qh).max() > 1e-8 * mag:
+                return (f"vector source: hydrostatic pressure g.x+b with g={gvec.tolist()} leaves a "
+                        f"net flux {np.abs(qh).max():.3e} (scale {mag:.3e})")
         if not res["korth"]:
             return None
         # M-matrix signs
@@ -338,15 +418,12 @@ class C12(Prop):
                 return f"K-orthogonal grid: diagonal A[{i},{i}] = {A[i, i]} not positive"
         if res["pmap"]:
             return None      # MPFA comparison and linear pressures do not apply to periodic maps
-        # MPFA coincidence (oracle only)
-        g2, K2, bc2, data2 = self._setup(case)
-        mp = pp.Mpfa(KW)
-        mp.discretize(g2, data2)
-        md2 = data2[pp.DISCRETIZATION_MATRICES][KW]
-        mflux = md2[mp.flux_matrix_key].toarray()
-        mbflux = md2[mp.bound_flux_matrix_key].toarray()
+        # MPFA coincidence
+        mflux = to_dense(res["mpfa"][0], (nf, nc))
+        mbflux = to_dense(res["mpfa"][1], (nf, nf))
         if not (np.allclose(mflux, flux, rtol=1e-9, atol=1e-9 * scale)
-                and np.allclose(mbflux, bflux, rtol=1e-9, atol=1e-9 * scale)):
+                and np.allclose(mbflux, bflux, rtol=1e-9,
+                                atol=1e-9 * max(scale, np.abs(bflux).max() if bflux.size else 0.0))):
             return ("MPFA and TPFA differ on a K-orthogonal grid: "
                     f"flux {np.abs(mflux - flux).max():.3e}, bound_flux {np.abs(mbflux - bflux).max():.3e}")
         if not case["const"] or res["pmap"]:
@@ -368,8 +445,8 @@ class C12(Prop):
         neu[bfaces] = bc.is_neu[bfaces]
         bv[neu] = sgn_b[neu] * exact[neu]
         q = flux @ p + bflux @ bv
-        lscale = max(1.0, np.abs(exact).max())
-        if np.abs(q - exact).max() > 1e-9 * lscale * scale:
+        lin_tol = 1e-8 * (np.abs(exact).max() + scale * (np.abs(p).max() + np.abs(bv).max()) + 1e-300)
+        if np.abs(q - exact).max() > lin_tol:
             return (f"linear pressure a={a.tolist()} not reproduced on a K-orthogonal grid with constant K: "
                     f"max flux error {np.abs(q - exact).max():.3e}")
         return None
@@ -393,8 +470,10 @@ class C12(Prop):
     def coq_case(self, case, res):
         ent = lambda t: f"({cz(t[0])}, {cz(t[1])}, {cq(t[2])})"
         m = lambda x: clist(x, ent)
-        return (f"agree {self._input(case, res)} {cbool(res['korth_exact'])} (Some ({m(res['flux'])}, "
-                f"{m(res['bound_flux'])}, {m(res['bpc'])}, {m(res['bpf'])}))")
+        mp = "None" if res["mpfa"] is None else f"(Some ({m(res['mpfa'][0])}, {m(res['mpfa'][1])}))"
+        return (f"agree_rel {self._input(case, res)} {cbool(res['korth_exact'])} (Some ({m(res['flux'])}, "
+                f"{m(res['bound_flux'])}, {m(res['bpc'])}, {m(res['bpf'])})) "
+                f"{cz(res['vsd'])}%Z {m(res['vs'])} {m(res['bpvs'])} {mp}")
 
     def coq_diag(self, case, res):
         return f"option_map qdiscretize {self._input(case, res)}"
@@ -409,6 +488,8 @@ class C12(Prop):
             return "not-single-valued"
         if "constant pressure" in why:
             return "constant-not-zero"
+        if "vector source" in why:
+            return "vector-source-hydrostatic"
         if "MPFA" in why:
             return "mpfa-differs"
         if "linear pressure" in why:
